@@ -737,7 +737,7 @@ func analyseRounding(f *ast.File) (int, [][2]string) {
 
 // operator guards: excellent/operators/builtin.go  const maxNumberExponent; exponentOutOfRange; Multiply starts
 // with the exponent-sum guard; Divide starts with the zero-divisor guard; functions.Mod starts with it too
-func firstStmtIs(decls []ast.Decl, varName string, want string) string {
+func stmtIs(decls []ast.Decl, varName string, idx int, want string) string {
 	for _, d := range decls {
 		switch x := d.(type) {
 		case *ast.GenDecl: // var Multiply = numericalBinary(func(...) { ... })
@@ -751,17 +751,17 @@ func firstStmtIs(decls []ast.Decl, varName string, want string) string {
 					fatal("operators: %s is not wrapper(func...)", varName)
 				}
 				fl, ok := call.Args[0].(*ast.FuncLit)
-				if !ok || len(fl.Body.List) == 0 {
-					fatal("operators: %s has no function literal", varName)
+				if !ok || len(fl.Body.List) <= idx {
+					fatal("operators: %s has no function literal with %d statements", varName, idx+1)
 				}
-				if normalise(src(fl.Body.List[0])) == normalise(want) {
+				if normalise(src(fl.Body.List[idx])) == normalise(want) {
 					return "true"
 				}
 				return "false"
 			}
 		case *ast.FuncDecl:
-			if x.Recv == nil && x.Name.Name == varName && len(x.Body.List) > 0 {
-				if normalise(src(x.Body.List[0])) == normalise(want) {
+			if x.Recv == nil && x.Name.Name == varName && len(x.Body.List) > idx {
+				if normalise(src(x.Body.List[idx])) == normalise(want) {
 					return "true"
 				}
 				return "false"
@@ -797,10 +797,30 @@ func analyseOperators(path string, builtinFile *ast.File) (int, [][2]string) {
 	}
 	zero := "if num2.Equals(types.XNumberZero) {\nreturn types.NewXErrorf(\"division by zero\")\n}"
 	mul := "if exponentOutOfRange(big.NewInt(int64(num1.Native().Exponent()) + int64(num2.Native().Exponent()))) {\nreturn types.NewXErrorf(\"number value out of range\")\n}"
+	oor := "{\nreturn types.NewXErrorf(\"number value out of range\")\n}"
+	pow1 := "if exponentOutOfRange(new(big.Int).Mul(big.NewInt(int64(base.Exponent())), power.BigInt())) " + oor
+	pow2 := "if power.IsNegative() && exponentOutOfRange(new(big.Int).Mul(big.NewInt(int64(base.NumDigits())), power.BigInt())) " + oor
+	pow3 := "if !power.IsInteger() && (numberMagnitude(base) > maxFractionalPowerDigits || numberMagnitude(power) > maxFractionalPowerDigits) " + oor
+	maxFrac, okF := 0, false
+	for _, d := range f.Decls {
+		if x, isG := d.(*ast.GenDecl); isG {
+			for _, sp := range x.Specs {
+				if vs, isV := sp.(*ast.ValueSpec); isV && len(vs.Names) == 1 && vs.Names[0].Name == "maxFractionalPowerDigits" && len(vs.Values) == 1 {
+					maxFrac, okF = intLit(vs.Values[0])
+				}
+			}
+		}
+	}
+	if !okF || maxFrac != 64 {
+		fatal("operators/builtin.go: const maxFractionalPowerDigits is not 64 (the model's max_fractional_power_digits)")
+	}
 	return maxExp, [][2]string{
-		{"Multiply.exponent", firstStmtIs(f.Decls, "Multiply", mul)},
-		{"Divide.zero", firstStmtIs(f.Decls, "Divide", zero)},
-		{"Mod.zero", firstStmtIs(builtinFile.Decls, "Mod", zero)},
+		{"Multiply.exponent", stmtIs(f.Decls, "Multiply", 0, mul)},
+		{"Divide.zero", stmtIs(f.Decls, "Divide", 0, zero)},
+		{"Mod.zero", stmtIs(builtinFile.Decls, "Mod", 0, zero)},
+		{"Exponent.exponent", stmtIs(f.Decls, "Exponent", 1, pow1)},
+		{"Exponent.negative", stmtIs(f.Decls, "Exponent", 2, pow2)},
+		{"Exponent.fractional", stmtIs(f.Decls, "Exponent", 3, pow3)},
 	}
 }
 
